@@ -41,6 +41,8 @@ try:
         results[p] = {"exit": rc, "lines": viol[:6]}
 finally:
     sh("git -C /repo checkout -- .")
+    # the runs above rewrote evidence/ and the regenerated tables from the mutated crate: restore the committed (clean) ones
+    sh("git -C /verif checkout -- evidence coq/Gen")
 meta["checks"] = results
 def real_violation(r):
     return any(l.startswith("VIOLATION") and "-proof.json" not in l for l in r["lines"]) or any(l.startswith("DISAGREEMENT") for l in r["lines"])
